@@ -142,6 +142,99 @@ impl Property for C02 {
     }
 
     fn run(&self, run_seed: u64, tier: Tier, acc: &mut Acc) -> Option<(Violation, Value)> {
+        // one run in twelve: a shipped design under two configurations; no exhaustive oracle, the
+        // statement's second sentence is checked directly: the verdict must not depend on solver
+        // profile, bad-state mode or prior simplification
+        {
+            let mut srng = Rng::stream(run_seed, "shipped");
+            if srng.chance(1, 12) {
+                let corpus = shipped_for_mc(if tier == Tier::Thorough { 60_000 } else { 12_000 });
+                if !corpus.is_empty() {
+                    let (name, text, sys) = corpus[srng.usize_below(corpus.len())].clone();
+                    if !sys.bads.is_empty() {
+                        let k = srng.range(1, 4);
+                        let mut verdicts: Vec<(String, String)> = vec![];
+                        for variant in 0..2u64 {
+                            let scn = McScenario {
+                                sys: sys.clone(),
+                                cfg: McCfg {
+                                    profile: srng.usize_below(4),
+                                    simplify: srng.bool(),
+                                    engine: Engine::Bmc { individually: srng.bool(), check_constraints: false, k },
+                                },
+                                sim_seed: crate::rng::mix(&[run_seed, 212, variant]),
+                                canonical_policy: false,
+                                benign: true,
+                                faults: vec![],
+                                original_btor2: Some(text.clone()),
+                            };
+                            let mut obs = scn.execute(false);
+                            if obs.stub_failure.as_deref().map(|f| f.contains("STUB-LIMIT")).unwrap_or(false) {
+                                obs.stub_failure = None;
+                                acc.count("skipped.shipped_design_beyond_stub_limits", 1);
+                                return None;
+                            }
+                            obs.account(acc);
+                            acc.evaluations += 1;
+                            acc.count("workload.shipped_design_runs", 1);
+                            match &obs.outcome {
+                                Outcome::Ok(v) => verdicts.push((v.short().to_string(), scn.cfg.describe())),
+                                Outcome::Err(e) => {
+                                    let site = match obs.first_solver_error() {
+                                        Some(w) => format!("solver-rejects:{}", categorize_solver_error(w.solver_error.as_deref().unwrap_or(""))),
+                                        None => "no-solver-error".to_string(),
+                                    };
+                                    let v = Violation {
+                                        property: "C02".into(),
+                                        oracle: "C02/definite".into(),
+                                        class: "Err".into(),
+                                        site,
+                                        detail: format!("bmc returned an error on {name} in a fault-free run: {e} [{}]", scn.cfg.describe()),
+                                    };
+                                    if !filter_known(acc, &v) {
+                                        return Some((v, scn.to_json()));
+                                    }
+                                    return None;
+                                }
+                                other => {
+                                    let (class, site) = match other {
+                                        Outcome::Panic { loc, .. } => ("Panic", loc.clone()),
+                                        o => (o.class(), "transport".to_string()),
+                                    };
+                                    let v = Violation {
+                                        property: "C02".into(),
+                                        oracle: "C02/definite".into(),
+                                        class: class.into(),
+                                        site,
+                                        detail: format!("bmc on {name}: {} [{}]", other.describe(), scn.cfg.describe()),
+                                    };
+                                    if !filter_known(acc, &v) {
+                                        return Some((v, scn.to_json()));
+                                    }
+                                    return None;
+                                }
+                            }
+                            if verdicts.len() == 2 && verdicts[0].0 != verdicts[1].0 {
+                                let v = Violation {
+                                    property: "C02".into(),
+                                    oracle: "C02/agreement".into(),
+                                    class: "ConfigurationDependentVerdict".into(),
+                                    site: "shipped-design".into(),
+                                    detail: format!(
+                                        "bmc up to k={k} on {name} answers {} under [{}] but {} under [{}]",
+                                        verdicts[0].0, verdicts[0].1, verdicts[1].0, verdicts[1].1
+                                    ),
+                                };
+                                if !filter_known(acc, &v) {
+                                    return Some((v, scn.to_json()));
+                                }
+                            }
+                        }
+                        return None;
+                    }
+                }
+            }
+        }
         let mut rng = Rng::stream(run_seed, "workload");
         let (msb, mib, kmax) = match tier {
             Tier::Quick => (8, 3, 6),
@@ -170,6 +263,7 @@ impl Property for C02 {
                 canonical_policy: false,
                 benign: true,
                 faults: vec![],
+                original_btor2: None,
             };
             let obs = scn.execute(false);
             obs.account(acc);
